@@ -20,6 +20,7 @@ import (
 	"bytes"
 	"errors"
 	"fmt"
+	"math"
 	"regexp"
 	"sort"
 	"strconv"
@@ -354,7 +355,12 @@ func (ctx *Context) evaluate() {
 	// ctx := &e.Context
 	var details []BufferSpan
 	numOpCountAdd := func(count IntType) bool {
-		e.NumOpCount += count
+		if count > 0 && e.NumOpCount > math.MaxInt-count {
+			// 防止计数溢出后变为负数，从而绕过算力上限
+			e.NumOpCount = math.MaxInt
+		} else {
+			e.NumOpCount += count
+		}
 		if ctx.Config.OpCountLimit > 0 && e.NumOpCount > ctx.Config.OpCountLimit {
 			ctx.Error = errors.New("允许算力上限")
 			return true
